@@ -85,7 +85,7 @@ func famECDSAHonest(k *mon.Case) {
 		k.Failf("ecdsa:Serialize:not-canonical-der", "r=%x s=%x got %x want %x", ri, si, ser, refec.EncodeDER(ri, si))
 	}
 	for name, parse := range map[string]func([]byte) (*ecdsa.Signature, error){"ParseDERSignature": ecdsa.ParseDERSignature, "ParseSignature": ecdsa.ParseSignature} {
-		buf := append([]byte{}, ser...)
+		buf := exact(ser)
 		p, err := parse(buf)
 		if err != nil || !p.IsEqual(sig) {
 			k.Failf("ecdsa:"+name+":roundtrip", "ser=%x err=%v", ser, err)
